@@ -717,15 +717,21 @@ def harness_stage(ctx, exe, ncases):
         ctx.obligation("%s %s (%d ops)" % (kind, suite, st["ops"]), st["disagreements"] == 0, json.dumps(st["examples"])[:600])
         ctx.coverage.setdefault("correspondence", {})[suite] = dict(ops=st["ops"], disagreements=st["disagreements"])
     ctx.coverage["generator_histogram"] = dict(sorted(g.hist.items()))
+    ctx.coverage["oracle_failures_total"] = len(found)
     ctx.coverage["primes_used"] = len(g.primes)
     for s in cases[:3] + cases[len(cases) // 2: len(cases) // 2 + 3]:
         ctx.sample(s[1][:200])
     # classification
     seen = set()
+    per_op = {}
     for (key, what), line, c, m in found:
         if key in seen:
             continue
         seen.add(key)
+        opn = line.lstrip("!").split()[0]
+        per_op[opn] = per_op.get(opn, 0) + 1
+        if per_op[opn] > 2 and not any(k.get("key") == key for k in ctx.known):
+            continue            # at most two replays per routine: the others are counted in the evidence
         ctx.violation(key, what, dict(op=line, impl_output=c, model_output=m,
                                       how_to_replay="echo '%s' | <drv_int built by ./check C17>   (tools/harness/drv_int.c)" % line[:400]))
     # disagreements where the real code still meets its defining equations: property no longer *shown*
